@@ -76,7 +76,7 @@ func installMapHook() {
 // several buckets also other start buckets.
 func alternatives(cp choicePoint, all bool) []uintptr {
 	var out []uintptr
-	offs := []uintptr{1, 7}
+	offs := []uintptr{1}
 	if all {
 		offs = []uintptr{1, 2, 3, 4, 5, 6, 7}
 	}
@@ -85,7 +85,11 @@ func alternatives(cp choicePoint, all bool) []uintptr {
 	}
 	if cp.B > 0 {
 		last := (uintptr(1) << cp.B) - 1
-		out = append(out, 1, last, last|(3<<cp.B))
+		if all {
+			out = append(out, 1, last, last|(3<<cp.B))
+		} else {
+			out = append(out, last|(3<<cp.B))
+		}
 	}
 	return out
 }
